@@ -159,3 +159,17 @@ CONFIG["C12"] = dict(
     level_note="Lean kernel + correspondence; the BLS retry loop is modelled with fuel 16 (never exercised: probability 2^-255 per iteration)",
     assumptions=["the retry loop of BLS KeyGen terminates within 16 iterations"],
 )
+
+CONFIG["C10"] = dict(
+    lean_modules=["Props.C10"],
+    generators=["C10"],
+    level="proof",
+    rule="one instance, 3 protocols x {dealer, non-dealer}: every call sequence of length <= 3 (thorough <= 4) over {Start(good/short seed), NextTimeout, End, Broadcast(valid vector / bad tag / out-of-range origins), "
+         "Private(valid share / malformed / out-of-range), ForceDisqualify(in/out of range), complaint to the dealer}, each call followed by Running(); random sequences up to length 14 (thorough 40) biased to the legal order; "
+         "constructor guards; compared with the model: error class, Running, every emitted message byte for byte (the model derives the dealer's polynomial from the seed), callbacks, End result incl. keys. Start after a completed End is not generated (unspecified)",
+    trusted_base=BLS_TB,
+    technique="Lean 4 proof (API automaton refinement, rejected calls are no-ops, End stops) + differential run of call sequences",
+    level_text="Theorems over the three state-machine models for every call list: error class of every call equals the documented automaton; a call rejected with a state-transition or index error leaves the state unchanged; End leaves the instance not running.",
+    level_note="Lean kernel + correspondence; crypto operations are an abstract record in the theorems, BLS12-381 in the driver",
+    assumptions=["reuse of an instance after End is outside the property"],
+)
